@@ -481,7 +481,7 @@ func exploreMain(t *testing.T, h Harness) {
 			sum.PerSeedFp[strconv.FormatUint(seed, 10)] = r.Fingerprint
 		}
 		for _, p := range r.Panics {
-			r.Violations = append(r.Violations, Violation{Prop: "*", Oracle: "panic", Sig: firstLine(p), Detail: p})
+			r.Violations = append(r.Violations, Violation{Prop: "*", Oracle: "panic", Sig: panicSig(p), Detail: p})
 		}
 		if len(sum.Samples) < 3 && (r.Progress || i > 20) {
 			sm := r
@@ -554,6 +554,26 @@ func slug(s string) string {
 		b = b[:60]
 	}
 	return string(b)
+}
+
+// panicSig is a schedule-independent signature of a panic: its message and the first repository
+// frame of its stack.
+func panicSig(p string) string {
+	msg := firstLine(p)
+	if i := strings.Index(msg, ": "); i >= 0 {
+		msg = msg[i+2:]
+	}
+	frame := ""
+	for _, l := range strings.Split(p, "\n") {
+		if strings.HasPrefix(l, "github.com/obolnetwork/charon/") && !strings.Contains(l, "/verifrt.") {
+			frame = l
+			if i := strings.LastIndex(frame, "("); i > 0 {
+				frame = frame[:i]
+			}
+			break
+		}
+	}
+	return msg + " @ " + frame
 }
 
 func firstLine(s string) string {
